@@ -30,6 +30,7 @@ class FakeProc:
         self.returncode = None
         self.killed = False
         self.waited = 0
+        self.stdin = self.stdout = self.stderr = None
 
     def poll(self):
         return self.returncode
